@@ -258,9 +258,20 @@ def classify (d : Design) (fl : Flags) (st : State) (srcG : Env) (names : List S
     --     that is itself a composite (the nesting flatten removes), and `n` is stored as a composite
     let hasMaster (g : String) := d.masters.any fun m => m.nloc == loc && (m.glyph? g).isSome
     let isComposite (g : String) := match srcG g with | some i => !i.comps.isEmpty | none => false
-    let nested := (closure srcG (names.length + 1) n).any fun m => m != n && hasMaster m && isComposite m
+    -- … or of any glyph at depth ≥ 2 below `n` (reached through a composite that flatten removes): once `n` refers to
+    -- it directly, `n` would have to be instantiated at that location too, because the composed offsets are products
+    -- of two varying transforms and are not linear in the location
+    let direct : List String := match srcG n with | some i => i.comps.map (·.base) | none => []
+    let deep : List String := direct.flatMap fun c => (closure srcG (names.length + 1) c).filter (· != c)
+    let nested := (closure srcG (names.length + 1) n).any fun m =>
+      m != n && hasMaster m && (isComposite m || deep.contains m)
     let stored := match st.env n with | some i => !i.comps.isEmpty | none => false
-    if !hasMaster n && nested && stored then "flatten-loses-nested-master" else "resolved-outline-differs"
+    -- (B') the same loss one level further down: a composite `p` below `n` lacks the master at `loc` that a glyph `m`
+    --      below `p` has (whether or not `n` itself has it): flattening `p` away loses `m`'s master there
+    let below := (closure srcG (names.length + 1) n).filter (· != n)
+    let lostBelow := below.any fun p => isComposite p && !hasMaster p &&
+      ((closure srcG (names.length + 1) p).any fun m => m != p && hasMaster m)
+    if ((!hasMaster n && nested) || lostBelow) && stored then "flatten-loses-nested-master" else "resolved-outline-differs"
   else "resolved-outline-differs"
 
 /-- The side conditions under which FontcProps.C12 `Step` covers the run of `process` on this input, evaluated:
